@@ -114,3 +114,56 @@ func c02CompletedThenConnFail(r *Run) {
 		}
 	}
 }
+
+// c02CutMidStream: the connection's read side fails — also with a bare io.EOF, which is what a cleanly
+// closed byte-stream transport reports — while a stream is still open (messages delivered, no trailer):
+// the caller gets what was delivered and then an ERROR; a stream that did not complete is never
+// reported as complete.
+func c02CutMidStream(r *Run) {
+	if !r.Want("cut") {
+		return
+	}
+	for rep, reps := 0, r.Scale(3, 40); rep < reps && r.NumViolations() <= 4; rep++ {
+		for k := 0; k <= 2; k++ {
+			for _, fail := range []error{io.EOF, fmt.Errorf("wrapped: %w", io.EOF), io.ErrUnexpectedEOF, errInjectedRead} {
+				in := map[string]any{"messages_delivered": k, "read_error": fmt.Sprint(fail), "rep": rep}
+				r.Progress("cut", in)
+				hooks.Reset(true)
+				sc := NewScript(0)
+				sc.Out = make(chan *Rpc, 64)
+				cc := goat.NewClientConn(sc, "c", "s")
+				cs, err := cc.NewStream(context.Background(), descBidi, mBidi)
+				if err != nil {
+					hooks.Reset(false)
+					return
+				}
+				open := <-sc.Out
+				ok := true
+				for i := 0; i < k && ok; i++ {
+					b, _ := goat_marshal(&wrapperspb.BytesValue{Value: srvMsg(i)})
+					select {
+					case sc.In <- &Rpc{Id: open.Id, Header: &goatorepo.RequestHeader{Method: mBidi}, Body: &goatorepo.Body{Data: b}}:
+						if _, err := recvB(cs); err != nil {
+							ok = false
+						}
+					case <-time.After(hangTimeout):
+						ok = false
+					}
+				}
+				if ok {
+					sc.FailRead(fail)
+					var term error
+					if !within(hangTimeout, func() { _, term = recvB(cs) }) {
+						r.Violate("cut.hang", "history", "RecvMsg did not return after the connection failed", in, goroutineDump(), nil)
+					} else if term == nil || term == io.EOF {
+						r.Violate("cut.eof", "history", "a stream cut off by a connection failure (no trailer was ever received) was reported to the caller as complete", in, fmt.Sprint(term), "an error other than io.EOF")
+					}
+				}
+				r.Eval(fmt.Sprintf("cut/%d/%v/%d", k, fail, rep), true)
+				r.Count("cut.connfail")
+				sc.FailRead(io.ErrUnexpectedEOF)
+				hooks.Reset(false)
+			}
+		}
+	}
+}
